@@ -9,6 +9,7 @@ import (
 	"time"
 
 	"github.com/lidofinance/dc4bc/client/types"
+	"github.com/lidofinance/dc4bc/storage"
 	"github.com/lidofinance/dc4bc/fsm/types/requests"
 
 	"verifharness/oracle"
@@ -292,7 +293,7 @@ func (cw *c07World) judge(c *Ctx, batchIDs map[int]string, expected map[string]m
 }
 
 func checkC07(c *Ctx) {
-	c.Rule = "bounded progress: for n=3,t=2 and two batches, ALL causally feasible board orders of the primary messages (proposals, answers; every choice of the answering set with >= t members per batch; answers may trail into and beyond the next batch) are played with eager polling on one world rewound by snapshots; reconstruction broadcasts follow from the nodes themselves. Seeded sampling beyond: (n,t) in {(2,2),(3,3),(4,2),(4,3),(5,3)}, three batches, random orders, lazy polling with random splits, random slow sets. At quiescence every node must be signing-idle and store a prysm-valid signature for every message of every batch that received >= t answers. Further families: two rounds on the same nodes; proposer clocks minutes/hours ahead of or behind the answerers'; ordinary batches after a proposal over an empty baked range. A batch whose proposer goes offline right after proposing (judged on the others while it is away, on everybody after it caught up). Identifiers of an earlier batch used again (same baked window twice; per-batch numbering). distinct = distinct board orders played"
+	c.Rule = "bounded progress: for n=3,t=2 and two batches, ALL causally feasible board orders of the primary messages (proposals, answers; every choice of the answering set with >= t members per batch; answers may trail into and beyond the next batch) are played with eager polling on one world rewound by snapshots; reconstruction broadcasts follow from the nodes themselves. Seeded sampling beyond: (n,t) in {(2,2),(3,3),(4,2),(4,3),(5,3)}, three batches, random orders, lazy polling with random splits, random slow sets. At quiescence every node must be signing-idle and store a prysm-valid signature for every message of every batch that received >= t answers. Further families: two rounds on the same nodes; proposer clocks minutes/hours ahead of or behind the answerers'; ordinary batches after a proposal over an empty baked range. A batch whose proposer goes offline right after proposing (judged on the others while it is away, on everybody after it caught up). The board refusing every node's broadcast of a finished batch once, a slower participant answering after it is back. Identifiers of an earlier batch used again (same baked window twice; per-batch numbering). distinct = distinct board orders played"
 	c.Assumptions = []string{"participants are slow, not wrong (no junk shares)", "MemState; cold machines are stateless for signing"}
 	// exhaustive part
 	sets := sched.Subsets(3, 2)
@@ -438,6 +439,7 @@ func checkC07(c *Ctx) {
 	c07DegenerateProposals(c)
 	c07SameIdsAgain(c)
 	c07ProposerOffline(c)
+	c07BroadcastOutage(c)
 	// sampled part
 	cfgs := []ntCase{{2, 2}, {3, 3}, {4, 2}, {4, 3}, {5, 3}}
 	per := c.Pick(12, 400)
@@ -926,6 +928,92 @@ func c07ProposerOffline(c *Ctx) {
 			bid2, msgs2, ok := runBatch(2, (p+1)%n, -1)
 			if ok {
 				judge("next batch, everybody online", bid2, msgs2, -1)
+			}
+		}()
+	}
+}
+
+// c07BroadcastOutage: the board refuses writes at the moment the nodes want to publish a finished batch (every
+// node's broadcast of the reconstructed signatures fails once); reading keeps working. When the board is back
+// a slower participant answers the same batch: with t <= n-1 prompt answers plus this one there are still at
+// least t correct answers on the board, so every polling node must end up with valid signatures, idle.
+func c07BroadcastOutage(c *Ctx) {
+	cases := [][2]int{{3, 2}, {4, 2}, {4, 3}}
+	for rep := 0; rep < c.Pick(3, 9); rep++ {
+		func() {
+			n, t := cases[rep%len(cases)][0], cases[rep%len(cases)][1]
+			seed := c.Seed*739 + uint64(rep)
+			cw, err := newC07World(seed, n, t)
+			if err != nil {
+				c.Inconclusive("broadcast-outage world: %v", err)
+				return
+			}
+			defer cw.ce.Close()
+			w := cw.ce.W
+			wit := map[string]interface{}{"family": "board refuses the broadcast of a finished batch once per node", "n": n, "t": t, "case_seed": seed}
+			outage := true
+			refused := 0
+			for _, nd := range w.Nodes {
+				nd.NB.FailSendIf = func(msgs []storage.Message) error {
+					for _, m := range msgs {
+						if outage && m.Event == EvSigRecon {
+							refused++
+							return fmt.Errorf("board unreachable (injected)")
+						}
+					}
+					return nil
+				}
+			}
+			before := w.Board.Len()
+			if e := w.ProposeSign(0, cw.ce.Round, c07BatchData(1), nil); e != nil {
+				c.Inconclusive("broadcast-outage world: proposal refused: %v", e)
+				return
+			}
+			bid, msgs, _ := ExpandProposal(w.Board.All()[before].Data)
+			cw.pollAll(nil)
+			answer := func(nd *world.Node) {
+				for _, o := range w.PendingOps(nd) {
+					if string(o.Type) == OpSigning && opBatchID(o) == bid {
+						_ = w.HandleOp(nd, o)
+					}
+				}
+				cw.pollAll(nil)
+			}
+			for i := 0; i < t; i++ {
+				answer(w.Nodes[i])
+			}
+			outage = false
+			c.Eval(1)
+			c.Distinct(fmt.Sprintf("broadcast-outage|n%d t%d|refused=%v", n, t, refused > 0))
+			if refused == 0 {
+				c.Inconclusive("broadcast-outage world: no broadcast was attempted during the outage")
+				return
+			}
+			c.Add("broadcasts_of_a_finished_batch_refused_by_the_board", refused)
+			// the board is back; a slower participant answers the same batch
+			for i := t; i < n; i++ {
+				answer(w.Nodes[i])
+			}
+			cw.pollAll(nil)
+			for _, nd := range w.Nodes {
+				store := SigStore(nd, cw.ce.Round)
+				for _, m := range msgs {
+					valid := false
+					for _, e := range store[bid][m.ID] {
+						if len(e.Signature) > 0 {
+							if ok, _ := oracle.VerifyG2(cw.key, m.Payload, e.Signature); ok {
+								valid = true
+							}
+						}
+					}
+					if !valid {
+						c.Violate("C07/batch-with-t-answers-not-reconstructed", fmt.Sprintf("%s holds no valid signature for message %s: %d correct answers are on the board (t=%d); the board refused the nodes' broadcasts once and was back before the last answer", nd.Name, m.ID, n, t), wit)
+						return
+					}
+				}
+				if st := NodeState(nd, cw.ce.Round); st != StIdle {
+					c.Violate("C07/node-not-idle-at-quiescence", fmt.Sprintf("after a board outage at the broadcasts: %s is in %s", nd.Name, st), wit)
+				}
 			}
 		}()
 	}
